@@ -7,7 +7,8 @@ cryptographic primitives:
   (EncryptArmorPrivKey, UnarmorDecryptPrivKey, ArmorPrivateKey, UnarmorPrivateKey,
    armorBytes / unarmorBytes);
 * tm2/pkg/crypto/xsalsa20symmetric/symmetric.go (nonce ‖ box layout, the
-  "too short" check);
+  "too short" check — `<` since /repo 3171d20601; it was `<=`, which rejected the
+  encryption of an empty plaintext);
 * the way tm2/pkg/crypto/bcrypt reads the passphrase: `ckey = password ‖ 0x00`
   is consumed by blowfish `ExpandKey`/`expandKeyWithSalt` as a CYCLIC stream of
   exactly 18·4 = 72 bytes (`keyStream`), nothing else of the passphrase is used;
@@ -111,7 +112,7 @@ def encryptSymmetric (C : Crypto) (plaintext secret nonce : Bytes) : Except KeyE
 /-- `xsalsa20symmetric.DecryptSymmetric(ciphertext, secret)` -/
 def decryptSymmetric (C : Crypto) (ciphertext secret : Bytes) : Except KeyErr Bytes :=
   if secret.length ≠ secretLen then .error .panicSecret
-  else if ciphertext.length ≤ boxOverhead + nonceLen then .error .short
+  else if ciphertext.length < boxOverhead + nonceLen then .error .short
   else match C.openBox secret (ciphertext.take nonceLen) (ciphertext.drop nonceLen) with
     | none => .error .wrongpass
     | some pt => .ok pt
